@@ -32,10 +32,10 @@ type verifProfileYAML struct {
 	} `yaml:"routing"`
 	API struct {
 		OpenAICompatible bool `yaml:"openai_compatible"`
+		AnthropicSupport *struct {
+			Enabled bool `yaml:"enabled"`
+		} `yaml:"anthropic_support"`
 	} `yaml:"api"`
-	AnthropicSupport *struct {
-		Enabled bool `yaml:"enabled"`
-	} `yaml:"anthropic_support"`
 }
 
 var (
